@@ -38,6 +38,7 @@ TIMEOUT = {"quick": 900, "thorough": 3600}
 
 REPS = {"quick": ["float", "jax", "np32"], "thorough": ["float", "np32", "np64", "jax"]}
 MAXLEN = {"quick": 5, "thorough": 7}
+SPECIAL = (0.5, 2, "inf", "nan")
 LEVELS = (-1, 0, 1, 2)  # 0 is a legitimate loss (a model that fits exactly); losses may also be negative
 
 
@@ -147,12 +148,12 @@ def make_rep(rep):
     import jax.numpy as jnp
 
     if rep == "float":
-        return {v: float(v) for v in LEVELS}
+        return {v: float(v) for v in LEVELS + SPECIAL}
     if rep == "np32":
-        return {v: np.float32(v) for v in LEVELS}
+        return {v: np.float32(float(v)) for v in LEVELS + SPECIAL}
     if rep == "np64":
-        return {v: np.float64(v) for v in LEVELS}
-    return {v: jnp.asarray(float(v)) for v in LEVELS}
+        return {v: np.float64(float(v)) for v in LEVELS + SPECIAL}
+    return {v: jnp.asarray(float(v)) for v in LEVELS + SPECIAL}
 
 
 def run(case, ctx):
@@ -182,8 +183,18 @@ def _run_hist(case, ctx, ml):
     key = {k: case[k] for k in ("cls", "patience", "min_delta", "rep", "maxlen")}
     viols, calls, n_hist, n_stop = [], 0, 0, 0
     _mon.take()
-    for L in range(1, case["maxlen"] + 1):
-        for hi, hist in enumerate(it.product(LEVELS, repeat=L)):
+    def all_histories():
+        for L in range(1, case["maxlen"] + 1):
+            for hi, hist in enumerate(it.product(LEVELS, repeat=L)):
+                yield L, hi, hist
+        # losses of a diverging run: inf and nan are not improvements (nan compares false with everything)
+        for L in range(1, case["maxlen"]):
+            for hi, hist in enumerate(it.product(SPECIAL, repeat=L)):
+                if any(v in ("inf", "nan") for v in hist):
+                    yield L, hi, hist
+
+    for L, hi, hist in all_histories():
+        if True:
             n_hist += 1
             cond = cls(patience=case["patience"], min_delta=case["min_delta"], verbose=(hi % 2 if case["patience"] == 1 else 0))
             auto = rmisc.PatienceAutomaton(case["patience"], case["min_delta"])
